@@ -252,7 +252,14 @@ def measure(ref, psi_or_env, m, rng):
         tl = TermList(terms, m['strength'])
         got, _ = call(obj, 'expectation_value_terms_sum', tl)
         want = sum(s * ref.term(t) for t, s in zip(terms, m['strength']))
-        return {'got': cl([got]), 'want': cl([want])}
+        rec = {}
+        doc = ' '.join((getattr(type(obj), 'expectation_value_terms_sum').__doc__ or '').split())
+        if type(obj).__name__ == 'MPSEnvironment' and 'does not include normalization factors' in doc:
+            # the docstring of the environment variant carries the warning that the result does NOT include bra.norm and ket.norm
+            # (all other measurements of MPSEnvironment do): compared with <bra|O|ket> of the tensors alone as long as it says so
+            want = want / ref.scale
+            rec['msg'] = 'documented: without bra.norm * ket.norm'
+        return dict(rec, got=cl([got]), want=cl([want]))
     if k == 'corr':
         kw = dict(m.get('kwargs', {}))
         o1, o2 = m['ops1'], m['ops2']
